@@ -2,6 +2,24 @@
 // package built from the current working tree, prints one result line per op
 // (the same lines the Lean model prints) and evaluates the implementation-side
 // oracles (map, scan, shape, lock state), writing each failure as a JSON line.
+//
+// Protocol (one op per line, one result line per op; the Lean driver
+// lean/Gobptree/Driver.lean understands the same lines):
+//
+//	begin | new <type> <order> | slot <n> | chk <order> | variant <name>
+//	ins <k> <v> | upd <k> <cb> | del <k> | get <k> | scan <start> <limit> | snap
+//	bulk <from> <count> <step>   count inserts of the keys adapter.BulkKey(type, from+i*step)
+//	                             with value i%89; one result line "bulk ok"
+//	scand <start> <limit>        a scan printed as a digest: number of pairs, first and last
+//	                             pair, FNV-1a-64 over " key=value" of every pair, end|closed
+//	locks                        TryLock sweep over every mutex of the tree now ("locks")
+//	opt sweep <k>                per-op structural sweeps (shape, locks) only after every k-th
+//	                             op (0: never; each costs a snapshot of the whole tree); scans,
+//	                             bulk, snap (shape) and `locks` always sweep ("opt ok")
+//
+// values <v>: nil | int64 | [n,n,...] (a []int64: an uncomparable value).
+// callbacks <cb>: c<v> constant | a<d> add d (non-int or absent: d) | ap<i> append i to the
+// stored slice (absent or not a slice: the one-element slice [i]).
 package main
 
 import (
@@ -44,6 +62,8 @@ type state struct {
 	tr    adapter.Tree
 	dead  bool
 	ora   []entry // sorted by tr.Less, unique modulo equivalence
+	sweepEvery int // per-op structural sweeps after every sweepEvery-th op (0: never)
+	ops        int
 }
 
 var (
@@ -65,25 +85,21 @@ func fail(st *state, kind, op, detail, site string) {
 	}
 }
 
-func fmtVal(v interface{}) string {
-	if v == nil {
-		return "nil"
-	}
-	if n, ok := v.(int64); ok {
-		return strconv.FormatInt(n, 10)
-	}
-	return fmt.Sprintf("?%v", v)
-}
+func fmtVal(v interface{}) string { return adapter.FmtVal(v) }
 
-func parseVal(s string) (interface{}, bool) {
-	if s == "nil" {
-		return nil, true
+func parseVal(s string) (interface{}, bool) { return adapter.ParseVal(s) }
+
+const (
+	fnvOffset uint64 = 14695981039346656037
+	fnvPrime  uint64 = 1099511628211
+)
+
+func fnvAdd(h uint64, s string) uint64 {
+	for i := 0; i < len(s); i++ {
+		h ^= uint64(s[i])
+		h *= fnvPrime
 	}
-	n, err := strconv.ParseInt(s, 10, 64)
-	if err != nil {
-		return nil, false
-	}
-	return n, true
+	return h
 }
 
 func (st *state) find(k string) (int, bool) {
@@ -163,6 +179,20 @@ func (st *state) checkShape(op string, force bool) {
 	for _, p := range shape.Check(root, st.order, st.tr.FmtKey, st.tr.Less) {
 		fail(st, "shape", op, p, "")
 	}
+}
+
+// opSweep runs the snapshot-based oracles after an ordinary operation (shape after a
+// mutating one, locks after every one); `opt sweep k` thins them out (a leaked mutex
+// stays locked and a broken structure stays broken, so a later sweep still finds it).
+func (st *state) opSweep(op string, mutating bool) {
+	st.ops++
+	if st.sweepEvery == 0 || st.ops%st.sweepEvery != 0 {
+		return
+	}
+	if mutating {
+		st.checkShape(op, false)
+	}
+	st.checkLocks(op, nil)
 }
 
 func (st *state) checkLocks(op string, heldLeaf interface{}) {
@@ -258,7 +288,7 @@ func main() {
 			var tr adapter.Tree
 			var cerr error
 			p, site, hung := runOp(func() { tr, cerr = adapter.New(args[0], order) })
-			st = &state{ty: args[0], order: order}
+			st = &state{ty: args[0], order: order, sweepEvery: 1}
 			if want := order >= 2 && bits.OnesCount64(uint64(order)) == 1; !p && !hung && (cerr == nil) != want {
 				fail(st, "ctor", line, fmt.Sprintf("constructor accepted=%v, order is a power of two >= 2: %v", cerr == nil, want), "")
 			}
@@ -334,8 +364,7 @@ func main() {
 			emit("ok")
 			if oracle {
 				st.put(args[0], v)
-				st.checkShape(line, false)
-				st.checkLocks(line, nil)
+				st.opSweep(line, true)
 			}
 		case op == "upd" && len(args) == 2:
 			cbs := args[1]
@@ -346,7 +375,19 @@ func main() {
 					emit("bad-op")
 					continue
 				}
-				f = func(interface{}, bool) interface{} { return v }
+				f = func(interface{}, bool) interface{} { return adapter.CloneVal(v) }
+			} else if strings.HasPrefix(cbs, "ap") {
+				d, err := strconv.ParseInt(cbs[2:], 10, 64)
+				if err != nil {
+					emit("bad-op")
+					continue
+				}
+				f = func(old interface{}, ok bool) interface{} {
+					if s, isSlice := old.([]int64); ok && isSlice {
+						return append(append(make([]int64, 0, len(s)+1), s...), d)
+					}
+					return []int64{d}
+				}
 			} else if strings.HasPrefix(cbs, "a") {
 				d, err := strconv.ParseInt(cbs[1:], 10, 64)
 				if err != nil {
@@ -401,8 +442,7 @@ func main() {
 					fail(st, "callback", line, "callback got "+calls[0]+", map oracle has "+want, "")
 				}
 				st.put(args[0], wantStored)
-				st.checkShape(line, false)
-				st.checkLocks(line, nil)
+				st.opSweep(line, true)
 			}
 		case op == "del" && len(args) == 1:
 			if died(runOp(func() { st.tr.Delete(args[0]) })) {
@@ -411,8 +451,7 @@ func main() {
 			emit("ok")
 			if oracle {
 				st.del(args[0])
-				st.checkShape(line, false)
-				st.checkLocks(line, nil)
+				st.opSweep(line, true)
 			}
 		case op == "get" && len(args) == 1:
 			var before string
@@ -445,7 +484,7 @@ func main() {
 						fail(st, "mutated", line, "Search changed the tree: "+before+" -> "+after, "")
 					}
 				}
-				st.checkLocks(line, nil)
+				st.opSweep(line, false)
 			}
 		case op == "scan" && len(args) == 2:
 			limit, err := strconv.Atoi(args[1])
@@ -534,6 +573,138 @@ func main() {
 						ws.WriteString(" " + p.k + "=" + fmtVal(p.v))
 					}
 					fail(st, "scan", line, "scan produced ["+strings.TrimPrefix(sb.String(), "scan")+" ] want ["+ws.String()+" ] ended="+strconv.FormatBool(wantEnded), "")
+				}
+				st.checkLocks(line, nil)
+			}
+		case op == "opt" && len(args) == 2 && args[0] == "sweep":
+			k, err := strconv.Atoi(args[1])
+			if err != nil || k < 0 {
+				emit("bad-op")
+				continue
+			}
+			st.sweepEvery = k
+			emit("opt ok")
+		case op == "locks" && len(args) == 0:
+			emit("locks")
+			if oracle {
+				st.checkLocks(line, nil)
+			}
+		case op == "bulk" && len(args) == 3:
+			from, e1 := strconv.ParseInt(args[0], 10, 64)
+			count, e2 := strconv.ParseInt(args[1], 10, 64)
+			step, e3 := strconv.ParseInt(args[2], 10, 64)
+			if e1 != nil || e2 != nil || e3 != nil || count < 0 {
+				emit("bad-op")
+				continue
+			}
+			// chunks, so that the watchdog bounds a stretch of inserts and not the whole load
+			failed := false
+			for lo := int64(0); lo < count && !failed; lo += 4096 {
+				hi := lo + 4096
+				if hi > count {
+					hi = count
+				}
+				a, b := lo, hi
+				if died(runOp(func() {
+					for i := a; i < b; i++ {
+						st.tr.Insert(adapter.BulkKey(st.ty, from+i*step), i%89)
+					}
+				})) {
+					failed = true
+				}
+			}
+			if failed {
+				continue
+			}
+			emit("bulk ok")
+			if oracle {
+				for i := int64(0); i < count; i++ {
+					k := adapter.BulkKey(st.ty, from+i*step)
+					if n := len(st.ora); n == 0 || st.tr.Less(st.ora[n-1].k, k) {
+						st.ora = append(st.ora, entry{k, i % 89})
+					} else {
+						st.put(k, i%89)
+					}
+				}
+				st.checkShape(line, false)
+				st.checkLocks(line, nil)
+			}
+		case op == "scand" && len(args) == 2:
+			limit, err := strconv.Atoi(args[1])
+			if err != nil {
+				emit("bad-op")
+				continue
+			}
+			digest := func(n int, first, last string, h uint64, ended bool) string {
+				if n == 0 {
+					first, last = "-", "-"
+				}
+				e := "closed"
+				if ended {
+					e = "end"
+				}
+				return fmt.Sprintf("scand n=%d first=%s last=%s h=%016x %s", n, first, last, h, e)
+			}
+			var n int
+			var first, last, prevKey, orderProblem string
+			h := fnvOffset
+			ended := false
+			if died(runOp(func() {
+				c := st.tr.NewScanner(args[0])
+				for {
+					if limit >= 0 && n == limit {
+						c.Close()
+						c.Close()
+						break
+					}
+					if !c.Scan() {
+						ended = true
+						c.Close()
+						c.Close()
+						break
+					}
+					k, v := c.Pair()
+					p := k + "=" + fmtVal(v)
+					if n == 0 {
+						first = p
+					} else if orderProblem == "" && !st.tr.Less(prevKey, k) {
+						orderProblem = "key " + prevKey + " is followed by " + k
+					}
+					last, prevKey = p, k
+					h = fnvAdd(h, " "+p)
+					n++
+					if oracle && n > len(st.ora)+1000 {
+						c.Close() // runaway scan; reported by the scan oracle
+						break
+					}
+				}
+			})) {
+				continue
+			}
+			got := digest(n, first, last, h, ended)
+			emit(got)
+			if oracle {
+				i, _ := st.find(args[0])
+				want := st.ora[i:]
+				if limit >= 0 && len(want) > limit {
+					want = want[:limit]
+				}
+				wantEnded := limit < 0 || len(st.ora[i:]) < limit
+				wh := fnvOffset
+				var wf, wl string
+				for j, e := range want {
+					p := adapter.CanonKey(st.ty, e.k) + "=" + fmtVal(e.v)
+					if j == 0 {
+						wf = p
+					}
+					wl = p
+					wh = fnvAdd(wh, " "+p)
+				}
+				if w := digest(len(want), wf, wl, wh, wantEnded); w != got {
+					fail(st, "scan", line, "scan digest ["+got+"] want ["+w+"] (pairs with key >= start in the map oracle)", "")
+				}
+				if orderProblem != "" {
+					fail(st, "scan", line, "scan not strictly ascending: "+orderProblem, "")
 				}
 				st.checkLocks(line, nil)
 			}
